@@ -72,7 +72,7 @@ func init() {
 			Params: map[string]int{"secrets": 2, "versions": 2}, ThoroughParams: map[string]int{"secrets": 3, "versions": 3},
 			ExpectReach: []string{"end-denied", "end-sink-failed"}, Desc: "DB." + n + ": sealed audit record before effect/disclosure; fail-closed on sink faults"})
 	}
-	for _, n := range []string{"UnchangedPollSilent", "List", "WriteEntries"} {
+	for _, n := range []string{"UnchangedPollSilent", "List", "WriteEntries", "ConcurrentWriters"} {
 		c06.Harnesses = append(c06.Harnesses, &HarnessSpec{Name: "verifHarnessC06" + n, Pkg: "db", Stubs: stubs,
 			Params: map[string]int{"secrets": 2, "versions": 2}, ThoroughParams: map[string]int{"secrets": 3, "versions": 3},
 			ExpectReach: []string{"end"}, Desc: "audit: " + n})
@@ -99,11 +99,11 @@ func init() {
 			ExpectReach: []string{"end"}, NoNative: "lock-set ghost state has no native counterpart",
 			Desc: "DB." + n + ": every access to kv state under db.mu, one critical section, released on every path, save under the lock"})
 	}
-	for _, n := range []string{"Put", "Activate", "DeleteVersion", "Get"} {
+	for _, n := range []string{"Put", "Activate", "DeleteVersion", "Get", "GetConditional"} {
 		c14.Harnesses = append(c14.Harnesses, &HarnessSpec{Name: "verifHarnessC14Interleave" + n, Pkg: "db", Stubs: dbStubs,
 			Params: map[string]int{"secrets": 1, "versions": 2}, ThoroughParams: map[string]int{"secrets": 2, "versions": 3}, ExpectReach: []string{"end"},
 			NoNative: "the second request is run re-entrantly from the audit sink, a schedule the native harness cannot force",
-			Desc:     "DB." + n + " with another client's whole request (put/activate/delete-version/delete on the same secret) executed in the window between its audit record and its critical section: state consistent, both puts retrievable under distinct numbers"})
+			Desc:     "DB." + n + " with another client's whole request (put/activate/delete-version/delete on the same secret) executed in the window between its audit record and its critical section (for get / conditional get: two requests, e.g. a rotation): state consistent, both puts retrievable under distinct numbers, a read's outcome is the one it has when run alone before, between or after the other requests"})
 	}
 	propRegistry = append(propRegistry, c14)
 }
